@@ -47,7 +47,7 @@ pub fn run(prop: &'static str, tier: Tier) -> i32 {
             depth: tier.pick(*dq, *dt),
             stale_sweep: p.stale,
             read_sweep: prop == "C12",
-            wall_cap_s: tier.pick(40.0, 1500.0),
+            wall_cap_s: tier.pick(40.0, 450.0),
             known: all_known_keys(),
         };
         let stats = explore(&cfg, &ctx, &report);
